@@ -382,6 +382,15 @@ TokText(t) == CASE t.k = "opd"   -> "#" \o t.s
 ExportExpr == Complete =>
                 LET r == ShuntValue IN
                 PrintT(ToJson([t |-> [i \in 1..Len(toks) |-> TokText(toks[i])], st |-> r.st, v |-> r.v]))
+(* an erroneous expression stays erroneous whatever is done with its value: the string  < E + 1 > * 0  (and  0 * < E >) of every short
+   erroneous E is exported as well, with the value the reference evaluator gives the WHOLE string *)
+Wrapped(ts) == << Tok("open", "angle") >> \o ts \o << Tok("inf", "+"), Tok("opd", "1"), Tok("close", "angle"), Tok("inf", "*"), Tok("opd", "0") >>
+Wrapped2(ts) == << Tok("opd", "0"), Tok("inf", "*"), Tok("open", "paren") >> \o ts \o << Tok("close", "paren") >>
+ExportWrapped == (Complete /\ Len(toks) <= 5 /\ ShuntValue.st = "err" /\ "0" \in Operands /\ "1" \in Operands
+                  /\ "angle" \in Brackets /\ "paren" \in Brackets) =>
+                \A w \in { Wrapped(toks), Wrapped2(toks) } :
+                   LET r == RefEval(w) IN
+                   PrintT(ToJson([t |-> [i \in 1..Len(w) |-> TokText(w[i])], st |-> r.st, v |-> r.v]))
 ExportLit == (Mode = "lit" /\ LitComplete) =>
                 LET r == LitValue(lit) IN
                 PrintT(ToJson([m |-> "lit", style |-> lit.style, txt |-> LitText(lit), st |-> r.st, v |-> r.v]))
